@@ -287,6 +287,9 @@ func c10Mutate(v *c10Valid, c c10Cell, rep int) ([]byte, bool) {
 		if cut < v.hdr {
 			cut = v.hdr
 		}
+		if cut > MaxMsgBody+2 {
+			return nil, false
+		}
 		if cut > len(v.b) {
 			return append(cp(), make([]byte, cut-len(v.b))...), true
 		}
@@ -316,6 +319,10 @@ func c10Mutate(v *c10Valid, c c10Cell, rep int) ([]byte, bool) {
 		return b, true
 
 	case "tail-odd", "tail-even", "tail-unsorted", "tail-nonmin":
+		// inputs stay within the 65535-byte domain of the property
+		if len(v.b)+len(c10Tails[c.Op]) > MaxMsgBody+2 {
+			return nil, false
+		}
 		return append(cp(), c10Tails[c.Op]...), true
 
 	case "flip":
